@@ -82,7 +82,10 @@ def _parts(text, lower):
     return [p for p in s.split(".") if p]
 
 
-def semver(schema, v, int_limit=U32):
+U64 = 2 ** 64 - 1
+
+
+def semver(schema, v, int_limit=U64):
     """Returns (string, notes). notes lists clauses that depend on integer width."""
     notes = []
     nums = []
